@@ -176,7 +176,7 @@ pub fn c10_real(c: &RealCase, stats: &mut Stats) -> Result<(), String>
                     if f.0 != was.0 { return Err(format!("real fs: cleaned target {} came back with different bytes", t)); }
                     if f.1 != was.1
                     {
-                        let twin = before.iter().any(|(u, g)| u != t && g.0 == was.0 && (all_targets.contains(u) || u.starts_with(".ruler/cache/")));
+                        let twin = before.iter().any(|(u, g)| u != t && g.0 == was.0);
                         if twin { stats.known(super::c10::KF_EXEC); }
                         else { return Err(format!("real fs: cleaned target {} came back {} its executable permission", t, if f.1 { "with" } else { "without" })); }
                     }
